@@ -141,6 +141,11 @@ func lrGrammarGen(stateful, throw bool) *rapid.Generator[*Grammar] {
 					}
 					seq.Sub = append(seq.Sub, op)
 				}
+				if nOp > 0 && c.chance(30, "tailend") {
+					// a closing terminal behind the operands ( L t M ";" ): the alternative can fail
+					// after a nested left-recursive operand has matched
+					seq.Sub = append(seq.Sub, c.consuming())
+				}
 				var alt *Expr = seq
 				if c.chance(75, "tailaction") {
 					alt = &Expr{K: KAction, ID: c.id(), Sub: []*Expr{seq}}
